@@ -5,7 +5,6 @@ import json, os, re, sys
 V = os.path.dirname(os.path.dirname(os.path.abspath(__file__)))
 WHY = {
  "C01-m2": "by design: the per-step error (<= 5e-5 relative on one slow eigenvalue) is inside the property's conditioning allowance; it shows only after ~10^4 steps, the kernels explore 3-4",
- "C13-m5": "outside the claim: the CORD2x kernel has symbolic ids and concrete A/B/C points of ordinary magnitude; the change zeroes a component 1e9 times smaller than the largest one (number fields of cards are C12's subject, the noise threshold of wtcoordcards is not modelled)",
  "C16-m5": "outside the claim: DR_Results.init_extreme_cat / form_extreme (object graph of results categories, SRS envelopes) is not encoded; C16's kernels are cla.extrema, maxmin, apply_uf and frf_apply_uf, where aliasing of the caller's arrays is checked, not the aliasing between an event's results and the envelope category",
  "C04-m1": "C04 does not claim complex matrices; the change is caught by C11 (sparse read of a big-endian complex matrix)",
 }
